@@ -37,6 +37,7 @@ RULE = (
 )
 ASSUMPTIONS = [
     "grid G6, 3 x points, Q2 in {4,30(,1e4)}; targets (Z,A) in {(0,1),(1,2),(23.403,49.618),(82,208),(0.3,1),(2,3),(1,1)} and all seven named targets",
+    "a sub-lattice crosses the rotation with non-canonical projectiles (positron, antineutrino, charged-lepton CC, neutrino NC), TMC mode 1, a polarised beam with propagator correction, and five cross-section kinds (PTO 1, two targets)",
     "the proton run is the reference (relation between two public runs); kernels are not inspected",
     "runs that are explicitly rejected (polarised CC) make the state trivial; other exceptions are C16's business (counted as blocked)",
 ]
@@ -67,6 +68,18 @@ def states(tier, seed):
         if tier == "quick" and (q2 == 10.0) != (p == "EM"):
             continue
         out.append({"mode": "rotation", "kind": k, "heavyness": h, "process": p, "scheme": "ZM-VFNS", "pto": 3, "Q2": q2, "Z": z, "A": a})
+    # options the rotation must commute with: non-canonical projectiles, target-mass corrections, polarised beam + propagator correction, cross sections
+    for (k, p, proj), h, sc, (z, a) in itertools.product(
+        [("F2", "NC", "positron"), ("F3", "NC", "positron"), ("F2", "CC", "antineutrino"), ("F3", "CC", "antineutrino"), ("FL", "CC", "electron"), ("F3", "CC", "positron"), ("F2", "NC", "neutrino"), ("g1", "NC", "positron")],
+        ["total", "charm"], ["ZM-VFNS", "FFNS3"], [(23.403, 49.618), (0.3, 1.0)],
+    ):
+        for extra in ({}, {"tmc": 1}, {"obscard": {"PolarizationDIS": -0.6, "PropagatorCorrection": 0.05}}):
+            if extra.get("tmc") and (sc == "FFNS3" and h == "charm" and k == "g1"):
+                continue
+            out.append(dict({"mode": "rotation", "kind": k, "heavyness": h, "process": p, "scheme": sc, "pto": 1, "Q2": 30.0, "Z": z, "A": a, "projectile": proj}, **extra))
+    for k, p, proj in [("XSHERANC", "NC", "positron"), ("XSCHORUSCC", "CC", "antineutrino"), ("XSNUTEVNU", "CC", "neutrino"), ("XSHERACC", "CC", "electron"), ("g5", "NC", "electron")]:
+        for sc, tmc in itertools.product(["ZM-VFNS", "FFNS3"], [0, 1]):
+            out.append({"mode": "rotation", "kind": k, "heavyness": "total", "process": p, "scheme": sc, "pto": 1, "Q2": 30.0, "Z": 23.403, "A": 49.618, "projectile": proj, "tmc": tmc, "y": 0.4})
     for name in NAMED:
         for k, p, sc in itertools.product(["F2", "F3"], ["NC", "CC"], ["ZM-VFNS", "FFNS3"]):
             out.append({"mode": "named", "kind": k, "heavyness": "total", "process": p, "scheme": sc, "pto": 1, "Q2": 30.0, "name": name})
@@ -76,10 +89,10 @@ def states(tier, seed):
 
 
 def _run(st, target):
-    c = {k: st[k] for k in ("process", "scheme", "pto")}
+    c = {k: st[k] for k in ("process", "scheme", "pto", "projectile", "tmc", "obscard") if k in st}
     c["target"] = target
     name = cards.obsname(st["kind"], st["heavyness"])
-    return rel.try_run(c, {name: [cards.kin(x, st["Q2"]) for x in XS]}), name
+    return rel.try_run(c, {name: [cards.kin(x, st["Q2"], st.get("y")) for x in XS]}), name
 
 
 def _triv(status, n=1):
